@@ -52,9 +52,12 @@ out = ['## 9. Seeded changes and which checks catch them', '',
        'samples (C02), very weak half spectra for `fas2values` (C06), `trap=np.True_` (C08), record lengths at which a float-step `np.arange` miscounts',
        '(C09), the explicit fractions 0.0 and 1.0 (C10), resample → `reset_values` → resample on one object (C14). After round 6, 4 of the 40 new ones were missed (C02_12,',
        'C06_12, C07_12, C08_11; added: integer period lists with a leading zero, the constructor source array re-used by the caller, read → add_constant /',
-       'add_series / reset_values → read on the structural smoothing block, in-place mutators that call clear_cache directly) and 13 were caught by a',
-       'broken source tie only (`translator` / `proof:` rows below with `no-failing-input-found`): miss rate per round 19 %, 25 %, 22 %, 10 %, 10 %. What was',
-       'added for the earlier rounds (see 7.3):',
+       'add_series / reset_values → read on the structural smoothing block, in-place mutators that call clear_cache directly) and 13 were first caught by a',
+       'broken source tie only; generators were then added for all 13 (narrow/unsigned integer records, true spectra at xi = 0, a second `gen_response_spectrum`',
+       'with a larger `min_dt_ratio`, a strong sample only in the trailing part-second, upper fraction 1.0 on float records, positional `im, se`, a first sample',
+       '2^55.. times the later oscillation, integer-dtype input of the cycle counter, the omitted `keep_adj_zeros`, `interp=True`, records of more than 50 000 /',
+       '65 536 samples through sparse Coq-side checkers, integer travel times). Miss rate per round: 19 %, 25 %, 22 %, 10 %, 10 %. Ten of the 240 rows still',
+       'name `translator` or `proof:` as the first reporting site. What was added for the earlier rounds (see 7.3):',
        'object read → change → read-again histories (C03, C07, C08, C09, C10), purity/repeatability wrappers (`core.guarded_pure`) and',
        'non-float64 storage (C01, C02, C06, C08, C09, C11, C13, C17, C18, C19), long-record × many-period batches and object-level refinement',
        '(C02), non-integer refinement factors (C03), weak-motion amplitudes (C08, C09, C19), list/tuple containers (C08), record lengths k·1000',
